@@ -309,7 +309,8 @@ class ReaderHarness(object):
             rec = dict(fr.locals)
             st['content_calls'].append(rec)
             I_.emit('k1-content', node, {'params': rec, 'index': st['k'] - 1})
-            keep = rec.get('keep_bytes')
+            from sa.props.reader_rules import content_param
+            keep = rec.get(content_param(fi, 'keep_bytes'))
             u = Unk('content', kinds=['bytes'] if concrete(keep) is True else ['str', 'bytes'], taint=['INPUT'])
             return u
         if self.stub_content:
